@@ -224,6 +224,15 @@ def main():
         n_req += n
         if problems:
             failures.append({'id': f'wire_chunk{cs}', 'class': None, 'case': {'payload': 300, 'stream_chunk_size': cs}, 'detail': problems[:3]})
+    # object names with a '.' or '..' path segment: httpx normalises the URL path after it was signed (known finding D19)
+    scen += 1
+    try:
+        problems, n = lib.run(scenario(['data/a/../b', 'data/./c'], 'data/', [], b'payload', 1000))
+    except Exception as e:
+        problems, n = [{'problem': 'exception', 'type': type(e).__name__, 'text': str(e)[:300]}], 0
+    n_req += n
+    if problems:
+        failures.append({'id': 'wire_dot_segments', 'class': 'D19', 'case': {'names': ['data/a/../b', 'data/./c']}, 'detail': problems[:3]})
     lib.emit({'status': 'ok', 'cases': enc_cases + n_req, 'distinct': 512 + n_req, 'failures': failures[:12], 'samples': samples,
               'exhaustive_part': 'per-byte encoding of path and query components: all 256 byte values',
               'exhaustive': False, 'reproduced': bool(failures)})
